@@ -39,7 +39,9 @@ disconnected, just before connectionLost).  An application that raises (Exceptio
 class) inside process() is generated too, but the statement is silent about it: such runs are counted and
 left unjudged after the raise.
 
-Guards: notifyFinish() is never called on a request that already finished or whose connection is
+A notifyFinish callback of every odd request asks for one more notifyFinish Deferred while the notifications
+are being delivered (finish path and connection-lost path): it is judged like the others.
+Guards: otherwise notifyFinish() is never called on a request that already finished or whose connection is
 gone (such a Deferred never fires; outside the statement); requests are syntactically valid
 (parsing is C18/C19's business); after the server itself calls loseConnection() the harness
 delivers nothing more and completes the close at the next step, like TCP — except in 30 % of the
@@ -65,7 +67,7 @@ ASSUMPTIONS = ["trusted base: netsim.SimTransport (write after loss is dropped; 
                "the harness scheduler; connection loss is delivered between operations, as a reactor would",
                "refhttp.read_responses decides which responses are complete on the wire"]
 SHARDS = {"quick": 4, "thorough": 16}
-FLOORS = {"runs": 5000, "process_events": 5000, "notify_fired_ok": 2000, "notify_fired_fail": 2000, "loss_while_in_progress": 1000,
+FLOORS = {"runs": 5000, "notify_taken_during_delivery": 500, "process_events": 5000, "notify_fired_ok": 2000, "notify_fired_fail": 2000, "loss_while_in_progress": 1000,
           "responses_on_wire_checked": 3000, "pipelined_handover_inside_finish": 300, "pause_ops": 500, "finish_after_loss_raised": 100,
           "process_after_stray_blank_line": 500, "losses_inside_loseconnection": 100, "finish_from_notify_callback": 100,
           "app_loseconnection_calls": 200, "producer_requests": 1000, "producer_stop_calls": 300, "finish_inside_stopproducing": 100,
@@ -313,12 +315,14 @@ class World:
             rec["fired"].append(("ok", repr(v), len(self.log)))
             self.log.append(("notify-fired", app["k"], j, "ok", repr(v)))
             self.ctx.count("notify_fired_ok")
+            self.renotify(app, j, kind)
             self.on_notify_fired(app)
 
         def fail(f, app=app, j=j, rec=rec):
             rec["fired"].append(("fail", f.type.__name__, len(self.log)))
             self.log.append(("notify-fired", app["k"], j, "fail", f.type.__name__))
             self.ctx.count("notify_fired_fail")
+            self.renotify(app, j, kind)
             self.on_notify_fired(app)
 
         d.addCallbacks(ok, fail)
@@ -331,6 +335,16 @@ class World:
         elif kind == "paused":
             d.pause()
             self.paused_deferreds.append(d)
+
+    def renotify(self, app, j, kind):
+        """A notifyFinish callback that asks for another notifyFinish Deferred of the same request while
+        the notifications are being delivered (odd requests, from their first Deferred, once; never from
+        a paused Deferred, whose callbacks run only when the harness unpauses it, long after delivery):
+        that Deferred, too, must fire exactly once, with the same outcome."""
+        if j == 0 and kind != "paused" and app["k"] % 2 == 1 and not app.get("renotified"):
+            app["renotified"] = True
+            self.ctx.count("notify_taken_during_delivery")
+            self.take_notify(app)
 
     def on_notify_fired(self, app):
         """Response timing: the next request's answer may be triggered by this notification (re-entrantly)."""
